@@ -6,6 +6,7 @@ import (
 	"log"
 	"net"
 	"runtime"
+	"strings"
 	"sync"
 	"sync/atomic"
 	"testing"
@@ -23,6 +24,122 @@ func TestC02(t *testing.T) {
 		n = envInt("VERIF_N", 60000)
 	}
 	forCases(n, 102, "h", func(i int, r *rng, id string) { randomHistory("C02", r, id, 7, 25) })
+	forCases(n/3, 1021, "g", func(i int, r *rng, id string) { c02Gossip(r, id) })
+	forCases(n/60+5, 1022, "x", func(i int, r *rng, id string) { c02Stir(r, id) })
+}
+
+// c02Gossip: accusations against the local node interleaved with ordinary gossip about peers of the same
+// shape (equal name and address lengths), the broadcast queue left alone (never reset): the refutation
+// carrying the node's final incarnation must actually be handed out for gossip.
+func c02Gossip(r *rng, id string) {
+	n, err := newCnode(ccfg{name: "n0"})
+	if err != nil {
+		return
+	}
+	defer n.m.Shutdown()
+	m := n.m
+	vsn := []uint8{1, 5, 2, 0, 0, 0}
+	peerInc := map[string]uint32{}
+	var handed [][]byte
+	drain := func() int {
+		msgs := ml.VerifGetBroadcasts(m, 2, 1400)
+		handed = append(handed, msgs...)
+		return len(msgs)
+	}
+	var ops []string
+	k := 2 + r.intn(7)
+	for i := 0; i < k; i++ {
+		cur := ml.VerifSnapshotState(m).Incarnation
+		switch r.intn(7) {
+		case 0, 1:
+			ml.VerifSuspectNode(m, cur+uint32(r.intn(2)), "n0", "n1")
+			ops = append(ops, "s")
+		case 2:
+			ml.VerifDeadNode(m, cur+uint32(r.intn(3)), "n0", "n2")
+			ops = append(ops, "d")
+		case 3, 4, 5:
+			p := []string{"n1", "n2", "n3"}[r.intn(3)]
+			peerInc[p]++
+			ml.VerifAliveNode(m, peerInc[p], p, []byte{10, 0, 0, byte(p[1] - '0')}, 7946, nil, vsn, nil, false)
+			ops = append(ops, "a"+p[1:])
+		default:
+			drain()
+			ops = append(ops, "g")
+		}
+	}
+	for i := 0; i < 400 && drain() > 0; i++ {
+	}
+	final := ml.VerifSnapshotState(m).Incarnation
+	found := 0
+	for _, msg := range handed {
+		if len(msg) > 1 && msg[0] == 4 {
+			if c, ok := ml.VerifDecodeClaim(4, msg[1:]); ok && c.Node == "n0" && c.Incarnation == final {
+				found = 1
+			}
+		}
+	}
+	emit("C02 gossip id=%s ops=%s final=%d handed=%d msgs=%d", id, strings.Join(ops, "."), final, found, len(handed))
+}
+
+// c02Stir: gossip, push/pull and probe ticks on three goroutines at once in a small cluster (they all pick
+// their targets from the member list under a read lock): afterwards the node still lists itself and
+// every member exactly once.
+func c02Stir(r *rng, id string) {
+	n, err := newCnode(ccfg{name: "n0"})
+	if err != nil {
+		return
+	}
+	defer n.m.Shutdown()
+	m := n.m
+	vsn := []uint8{1, 5, 2, 0, 0, 0}
+	peers := 1 + r.intn(6)
+	for i := 1; i <= peers; i++ {
+		ml.VerifAliveNode(m, 1, fmt.Sprintf("n%d", i), []byte{10, 0, 0, byte(i)}, 7946, nil, vsn, nil, false)
+	}
+	n.tr.dial = func(addr string) (net.Conn, error) { return nil, fmt.Errorf("refused") }
+	var wg sync.WaitGroup
+	stop := time.Now().Add(40 * time.Millisecond)
+	for g := 0; g < 3; g++ {
+		wg.Add(1)
+		go func(g int) {
+			defer wg.Done()
+			defer func() { recover() }()
+			for time.Now().Before(stop) {
+				switch g {
+				case 0:
+					ml.VerifGossip(m)
+				case 1:
+					ml.VerifPushPull(m)
+				default:
+					ml.VerifGossip(m)
+					m.Members()
+				}
+			}
+		}(g)
+	}
+	wg.Wait()
+	seen := map[string]int{}
+	for _, nd := range ml.VerifSnapshotState(m).Nodes {
+		seen[nd.Name]++
+	}
+	missing, dup := 0, 0
+	for i := 0; i <= peers; i++ {
+		c := seen[fmt.Sprintf("n%d", i)]
+		if c == 0 {
+			missing++
+		}
+		if c > 1 {
+			dup++
+		}
+	}
+	self := 0
+	for _, nd := range m.Members() {
+		if nd.Name == "n0" {
+			self++
+		}
+	}
+	n.tr.take()
+	emit("C02 stir id=%s peers=%d missing=%d dup=%d self=%d", id, peers, missing, dup, self)
 }
 
 // C07: events against Members() over random histories of every operation kind.
@@ -34,6 +151,7 @@ func TestC07(t *testing.T) {
 	forCases(n, 107, "h", func(i int, r *rng, id string) { randomHistory("C07", r, id, 2, 40) })
 	forCases(n/200+4, 1071, "c", func(i int, r *rng, id string) { c07Conc(r, id) })
 	forCases(n/1500+2, 1072, "p", func(i int, r *rng, id string) { c07Poll(r, id) })
+	forCases(n/20, 1073, "e", func(i int, r *rng, id string) { c07Chan(r, id) })
 }
 
 // C08: address conflicts / reclaim / departures: the non-local table plus random histories.
@@ -106,6 +224,42 @@ func c18Src(r *rng, id string) {
 	srcOK := b2i(oracle(ua.IP))
 	innerOK := b2i(oracle(net.IP(pool.addrs[inner])))
 	emit("C18 src id=%s src=%d inner=%d innerok=%d carrier=%s listed=%d recorded=%d events=%d panic=%d", id, srcOK, inner, innerOK, carrier, listed, recorded, len(evs), pan)
+}
+
+// c18Parse: ParseCIDRs on lists with well-formed and malformed entries: the documented result is the
+// well-formed networks (in order) together with an error iff something was malformed - a caller that
+// logs the error and goes on must not end up with an empty list, which means "allow everybody".
+func c18Parse(r *rng, id string) {
+	good := []string{"10.0.0.0/8", "192.168.0.0/29", "fd00::/8", " 10.0.0.0/22 ", "0.0.0.0/1", "::/0", "10.0.0.8/29"}
+	badE := []string{"10.0.0.0/33", "garbage", "", "10.0.0.0", "fd00::/129", "10.0.0.0/8/8", "300.0.0.0/8"}
+	n := r.intn(6)
+	var list []string
+	var want []string
+	anyBad := false
+	for i := 0; i < n; i++ {
+		if r.chance(1, 3) {
+			list = append(list, badE[r.intn(len(badE))])
+			anyBad = true
+		} else {
+			g := good[r.intn(len(good))]
+			list = append(list, g)
+			_, nt, _ := net.ParseCIDR(strings.TrimSpace(g))
+			want = append(want, nt.String())
+		}
+	}
+	var in []string
+	if n > 0 || r.chance(1, 2) {
+		in = list
+		if in == nil {
+			in = []string{}
+		}
+	}
+	nets, err := ml.ParseCIDRs(in)
+	var got []string
+	for _, nt := range nets {
+		got = append(got, nt.String())
+	}
+	emit("C18 parse id=%s entries=%d malformed=%d want=%s got=%s err=%d", id, n, b2i(anyBad), strings.Join(want, "+"), strings.Join(got, "+"), b2i(err != nil))
 }
 
 // c18Transport: the same question asked of the stock network transport: a packet handed to
@@ -184,6 +338,73 @@ func c18Transport(r *rng, id string, alist []string, oracle func(net.IP) bool) b
 	emit("C18 src id=%s src=%d inner=%d innerok=%d carrier=transport listed=%d recorded=%d events=%d panic=%d sentinel=%d", id,
 		b2i(oracle(ua.IP)), inner, b2i(oracle(net.IP(pool.addrs[inner]))), listed, b2i(has("n1")), listed, pan, b2i(has("zz")))
 	return true
+}
+
+// c07Chan: the package's own ChannelEventDelegate with a consumer that lags behind: each event read from
+// the channel must still carry what Members() showed when it was delivered (the join the first metadata,
+// every update its own), whatever happened to the member afterwards.
+func c07Chan(r *rng, id string) {
+	ch := make(chan ml.NodeEvent, 64)
+	conf := ml.DefaultLANConfig()
+	conf.Name = "S"
+	conf.Transport = newNullTransport()
+	conf.AdvertiseAddr = "10.0.0.9"
+	conf.AdvertisePort = 7946
+	conf.BindPort = 7946
+	conf.ProbeInterval = time.Hour
+	conf.GossipInterval = 0
+	conf.PushPullInterval = 0
+	conf.Events = &ml.ChannelEventDelegate{Ch: ch}
+	conf.Logger = log.New(io.Discard, "", 0)
+	m, err := ml.Create(conf)
+	if err != nil {
+		return
+	}
+	defer m.Shutdown()
+	for len(ch) > 0 {
+		<-ch // the node's own join
+	}
+	vsn := []uint8{1, 5, 2, 0, 0, 0}
+	k := 2 + r.intn(5)
+	var want []string
+	inc := uint32(1)
+	alive := false
+	for i := 0; i < k; i++ {
+		switch {
+		case !alive:
+			meta := fmt.Sprintf("m%d", i)
+			ml.VerifAliveNode(m, inc, "n1", []byte{10, 0, 0, 1}, 7946, []byte(meta), vsn, nil, false)
+			want = append(want, "join:"+meta)
+			alive = true
+		case r.chance(1, 4):
+			ml.VerifDeadNode(m, inc, "n1", "n2")
+			want = append(want, fmt.Sprintf("leave:m%d", i-1))
+			alive = false
+			inc++
+		default:
+			inc++
+			meta := fmt.Sprintf("m%d", i)
+			ml.VerifAliveNode(m, inc, "n1", []byte{10, 0, 0, 1}, 7946, []byte(meta), vsn, nil, false)
+			want = append(want, "update:"+meta)
+		}
+	}
+	// leave events carry the metadata the member had when it left: recompute from the sequence
+	last := ""
+	for i, w := range want {
+		kv := strings.SplitN(w, ":", 2)
+		if kv[0] == "leave" {
+			want[i] = "leave:" + last
+		} else {
+			last = kv[1]
+		}
+	}
+	var got []string
+	for len(ch) > 0 {
+		e := <-ch
+		kind := map[ml.NodeEventType]string{ml.NodeJoin: "join", ml.NodeLeave: "leave", ml.NodeUpdate: "update"}[e.Event]
+		got = append(got, kind+":"+string(e.Node.Meta))
+	}
+	emit("C07 chan id=%s want=%s got=%s", id, strings.Join(want, ","), strings.Join(got, ","))
 }
 
 // c07Conc: concurrent claims about different members; the event delegate checks that no
@@ -439,4 +660,5 @@ func TestC18(t *testing.T) {
 		runHistory("C18", id, c, ops)
 	})
 	forCases(n/4, 1181, "s", func(i int, r *rng, id string) { c18Src(r, id) })
+	forCases(n/8, 1182, "p", func(i int, r *rng, id string) { c18Parse(r, id) })
 }
